@@ -193,3 +193,229 @@ void h_bay_disable_cb(void)
 	if (w_enabled && !w_is_head && !w_has_next) REACH("tail removed");
 	if (!w_enabled) REACH("already disabled");
 }
+
+/* =====================================================================================
+ * MUX_WF and cb_select / cb_input
+ * =====================================================================================
+ * Memory is built by the harness (concrete callback phase, see TOOL LIMIT above): a mux with
+ * ninputs in [0,NIN] inputs; every input has its own channel, its bay channel and its DIRTY callback;
+ * the callback list of each input channel also holds up to two callbacks of OTHER muxes (X, Y) before
+ * and after the input's own callback.  cb_select does not loop over inputs: NIN = 3 covers old == new,
+ * old != new and an uninvolved third input. */
+struct mux *G_mux;
+struct chan *G_sel, *G_out, *G_in[NIN];
+struct bay_cb *G_cb[NIN], *G_x[NIN], *G_y[NIN];
+struct bay_chan *G_bc[NIN];
+
+#define IN(m, i) ((m)->inputs[i])
+#define IN_WF(m, i) ((m)->ninputs <= (i) || ( \
+	IN(m, i).index == (i) && IN(m, i).cb == G_cb[i] && IN(m, i).chan == G_in[i] && IN(m, i).output == (m)->output && \
+	G_cb[i]->type == BAY_CB_DIRTY && G_cb[i]->bchan == G_bc[i] && G_cb[i]->func == cb_input && G_cb[i]->arg == &IN(m, i) && \
+	G_bc[i]->chan == G_in[i] && G_bc[i]->ncallbacks[BAY_CB_DIRTY] >= 0 && G_bc[i]->ncallbacks[BAY_CB_DIRTY] < INT_MAX - 2 && \
+	CHAN_WF(G_in[i]) && \
+	/* an input whose callback is enabled, or which is flagged selected, is THE selected input */ \
+	(G_cb[i]->enabled == 0 || (m)->selected == (i)) && (IN(m, i).selected == 0 || (m)->selected == (i))))
+#define MUX_WF(m) ((m)->ninputs >= 0 && (m)->ninputs <= NIN && (m)->selected >= -1 && (m)->selected < (m)->ninputs && \
+	(m)->output == G_out && G_out->type == CHAN_SINGLE && G_out->prop[CHAN_DIRTY_WRITE] != 0 && G_out->prop[CHAN_ALLOW_DUP] != 0 && \
+	IN_WF(m, 0) && IN_WF(m, 1) && IN_WF(m, 2))
+/* the input's callback is on the DIRTY callback list of its channel (list shapes of the harness) */
+#define ON_LIST(i) (G_bc[i]->cb[BAY_CB_DIRTY] == G_cb[i] || G_x[i]->next == G_cb[i] || G_y[i]->next == G_cb[i])
+/* exactly the selected input is enabled, flagged and listed */
+#define IN_SYNC(m, i) ((m)->ninputs <= (i) || ( \
+	(G_cb[i]->enabled != 0) == ((m)->selected == (i)) && (IN(m, i).selected != 0) == ((m)->selected == (i)) && \
+	ON_LIST(i) == ((m)->selected == (i))))
+#define MUX_SYNC_INPUTS(m) (IN_SYNC(m, 0) && IN_SYNC(m, 1) && IN_SYNC(m, 2))
+
+/* builds the callback list [before..., own?, after...] of input i */
+static void
+link3(struct bay_chan *bc, struct bay_cb *a, struct bay_cb *b, struct bay_cb *c)
+{
+	/* any of a, b, c may be NULL (skipped) */
+	struct bay_cb *n[3]; int k = 0;
+	if (a) n[k++] = a;
+	if (b) n[k++] = b;
+	if (c) n[k++] = c;
+	if (k == 0) { bc->cb[BAY_CB_DIRTY] = NULL; return; }
+	bc->cb[BAY_CB_DIRTY] = n[0];
+	n[0]->prev = n[k - 1];
+	n[k - 1]->next = NULL;
+	if (k >= 2) { n[0]->next = n[1]; n[1]->prev = n[0]; }
+	if (k == 3) { n[1]->next = n[2]; n[2]->prev = n[1]; }
+}
+
+int w_nin, w_oldsel, w_en0, w_en1, w_en2, w_outdirty, w_outcb, w_shape0, w_shape1, w_shape2, w_seltype;
+int64_t w_kt, w_ki, w_deft, w_defi;
+
+static void
+build_mux(mux_select_func_t fsel)
+{
+	G_mux = alloc(sizeof(struct mux));
+	G_sel = alloc(sizeof(struct chan));
+	G_out = alloc(sizeof(struct chan));
+	int64_t n = nondet_long();
+	__CPROVER_assume(n >= 0 && n <= NIN);
+	G_mux->ninputs = n;
+	G_mux->inputs = alloc(sizeof(struct mux_input) * (size_t) n);
+	G_mux->output = G_out;
+	G_mux->select = G_sel;
+	G_mux->select_func = fsel;
+	G_out->dirty_cb = nondet_bool() ? stub_dirty_cb : NULL;
+	for (int i = 0; i < NIN; i++) {
+		G_in[i] = alloc(sizeof(struct chan));
+		G_bc[i] = alloc(sizeof(struct bay_chan));
+		G_cb[i] = alloc(BCB);
+		G_x[i] = alloc(BCB);
+		G_y[i] = alloc(BCB);
+		G_cb[i]->type = BAY_CB_DIRTY;      /* concrete: see TOOL LIMIT */
+		G_cb[i]->bchan = G_bc[i];
+		G_cb[i]->func = cb_input;
+		G_bc[i]->chan = G_in[i];
+		G_x[i]->next = G_x[i]->prev = G_y[i]->next = G_y[i]->prev = NULL;
+		int shape = nondet_int();
+		__CPROVER_assume(shape >= 0 && shape <= 3);
+		struct bay_cb *own = G_cb[i]->enabled ? G_cb[i] : NULL;
+		if (own == NULL) G_cb[i]->next = G_cb[i]->prev = NULL;
+		link3(G_bc[i], (shape & 1) ? G_x[i] : NULL, own, (shape & 2) ? G_y[i] : NULL);
+		if (i == 0) w_shape0 = shape;
+		if (i == 1) w_shape1 = shape;
+		if (i == 2) w_shape2 = shape;
+		if (i < n) {
+			G_mux->inputs[i].index = i;
+			G_mux->inputs[i].cb = G_cb[i];
+			G_mux->inputs[i].chan = G_in[i];
+			G_mux->inputs[i].output = G_out;
+			G_cb[i]->arg = &G_mux->inputs[i];
+		}
+	}
+}
+
+/* ---------------- cb_select with the default selector (CPU muxes: key = gindex of the running thread) ---- */
+int64_t g_kt, g_ki;            /* value of the select channel */
+int64_t g_it[NIN], g_ii[NIN];  /* value of each input channel */
+int64_t g_ot, g_oi, g_deft, g_defi;
+int g_out_dirty;
+
+#define KEY_NONE      (g_kt == VALUE_NULL)
+#define KEY_INDEX(m)  (g_kt == VALUE_INT64 && g_ki >= 0 && g_ki < (m)->ninputs)
+#define KEY_BAD(m)    (!KEY_NONE && !KEY_INDEX(m))
+#define NEWSEL(m)     (KEY_INDEX(m) ? g_ki : -1)
+
+/* Plain CBMC harness (no DFCC instrumentation: see TOOL LIMIT; the replaced-contract form of
+ * bay_enable_cb crashes the tool as well): precondition assumed, every postcondition asserted, frame
+ * asserted on snapshots.  Everything under cb_select is the real code, inlined: select_input,
+ * default_select, bay_disable_cb, bay_enable_cb, chan_read, chan_set, set_dirty. */
+struct snap {
+	struct mux mux;
+	struct mux_input in[NIN];
+	struct bay_cb cb[NIN], x[NIN], y[NIN];
+	struct bay_chan bc[NIN];
+	int64_t lt[NIN + 2], li[NIN + 2];
+	int dirty[NIN + 2];
+};
+static void
+take_snap(struct snap *s)
+{
+	s->mux = *G_mux;
+	for (int i = 0; i < NIN; i++) {
+		if (i < G_mux->ninputs) s->in[i] = G_mux->inputs[i];
+		s->cb[i] = *G_cb[i]; s->x[i] = *G_x[i]; s->y[i] = *G_y[i]; s->bc[i] = *G_bc[i];
+		s->lt[i] = G_in[i]->last_value.type; s->li[i] = G_in[i]->last_value.i; s->dirty[i] = G_in[i]->is_dirty;
+	}
+	s->lt[NIN] = G_sel->last_value.type; s->li[NIN] = G_sel->last_value.i; s->dirty[NIN] = G_sel->is_dirty;
+	s->lt[NIN + 1] = G_out->last_value.type; s->li[NIN + 1] = G_out->last_value.i;
+}
+/* frame common to cb_select and cb_input: what must NOT change */
+static void
+check_frame(struct snap *s, int64_t involved_a, int64_t involved_b)
+{
+	VASSERT(G_mux->bay == s->mux.bay && G_mux->ninputs == s->mux.ninputs && G_mux->inputs == s->mux.inputs &&
+		G_mux->select_func == s->mux.select_func && G_mux->select == s->mux.select && G_mux->output == s->mux.output &&
+		G_mux->def.type == s->mux.def.type && G_mux->def.i == s->mux.def.i, "frame: mux configuration");
+	for (int i = 0; i < NIN; i++) {
+		/* input channels, the select channel: value, dirty bit, last value untouched */
+		VASSERT(spec_cur_t(G_in[i]) == g_it[i] && spec_cur_i(G_in[i]) == g_ii[i] && G_in[i]->is_dirty == s->dirty[i] &&
+			G_in[i]->last_value.type == s->lt[i] && G_in[i]->last_value.i == s->li[i], "frame: input channel");
+		if (i < G_mux->ninputs)
+			VASSERT(IN(G_mux, i).index == s->in[i].index && IN(G_mux, i).chan == s->in[i].chan &&
+				IN(G_mux, i).output == s->in[i].output && IN(G_mux, i).cb == s->in[i].cb, "frame: input configuration");
+		VASSERT(G_cb[i]->func == s->cb[i].func && G_cb[i]->arg == s->cb[i].arg && G_cb[i]->bchan == s->cb[i].bchan &&
+			G_cb[i]->type == s->cb[i].type, "frame: input callback configuration");
+		VASSERT(G_x[i]->enabled == s->x[i].enabled && G_y[i]->enabled == s->y[i].enabled &&
+			G_x[i]->func == s->x[i].func && G_y[i]->func == s->y[i].func, "frame: other callbacks stay as they are");
+		VASSERT(G_bc[i]->chan == s->bc[i].chan && G_bc[i]->cb[BAY_CB_EMIT] == s->bc[i].cb[BAY_CB_EMIT] &&
+			G_bc[i]->is_dirty == s->bc[i].is_dirty, "frame: bay channel");
+		if (i != involved_a && i != involved_b)
+			/* an input that is neither the old nor the new selection is not touched at all */
+			VASSERT(G_cb[i]->enabled == s->cb[i].enabled && G_cb[i]->next == s->cb[i].next && G_cb[i]->prev == s->cb[i].prev &&
+				G_bc[i]->cb[BAY_CB_DIRTY] == s->bc[i].cb[BAY_CB_DIRTY] && G_bc[i]->ncallbacks[BAY_CB_DIRTY] == s->bc[i].ncallbacks[BAY_CB_DIRTY] &&
+				G_x[i]->next == s->x[i].next && G_x[i]->prev == s->x[i].prev && G_y[i]->next == s->y[i].next && G_y[i]->prev == s->y[i].prev,
+				"frame: uninvolved input");
+	}
+	VASSERT(spec_cur_t(G_sel) == g_kt && spec_cur_i(G_sel) == g_ki && G_sel->is_dirty == s->dirty[NIN] &&
+		G_sel->last_value.type == s->lt[NIN] && G_sel->last_value.i == s->li[NIN], "frame: select channel");
+	VASSERT(G_out->last_value.type == s->lt[NIN + 1] && G_out->last_value.i == s->li[NIN + 1] && G_out->type == CHAN_SINGLE &&
+		G_out->prop[CHAN_DIRTY_WRITE] != 0 && G_out->prop[CHAN_ALLOW_DUP] != 0, "frame: output channel configuration and last value");
+}
+/* the other callbacks of a channel stay linked in their order whatever happens to the input's own callback */
+#define OTHERS_LINKED(i, shape) ( \
+	((shape) != 0 || (!ON_LIST(i) ? G_bc[i]->cb[BAY_CB_DIRTY] == NULL : (G_bc[i]->cb[BAY_CB_DIRTY] == G_cb[i] && G_cb[i]->prev == G_cb[i]))) && \
+	(!((shape) & 1) || G_bc[i]->cb[BAY_CB_DIRTY] == G_x[i]) && \
+	((shape) != 3 || (G_x[i]->next == G_y[i] && G_y[i]->prev == G_x[i])) && \
+	((shape) != 2 || G_bc[i]->cb[BAY_CB_DIRTY] == G_y[i]))
+
+static void
+bind_pre(void)
+{
+	g_kt = spec_cur_t(G_sel); g_ki = spec_cur_i(G_sel);
+	for (int i = 0; i < NIN; i++) { g_it[i] = spec_cur_t(G_in[i]); g_ii[i] = spec_cur_i(G_in[i]); }
+	g_ot = spec_single_t(G_out); g_oi = spec_single_i(G_out); g_out_dirty = G_out->is_dirty;
+	g_deft = G_mux->def.type; g_defi = G_mux->def.i; g_cb_calls = 0;
+	w_nin = (int) G_mux->ninputs; w_oldsel = (int) G_mux->selected; w_kt = g_kt; w_ki = g_ki;
+	w_en0 = G_cb[0]->enabled; w_en1 = G_cb[1]->enabled; w_en2 = G_cb[2]->enabled;
+	w_outdirty = G_out->is_dirty; w_outcb = (G_out->dirty_cb != NULL); w_deft = g_deft; w_defi = g_defi;
+}
+
+void h_cb_select(void)
+{
+	struct snap s;
+	build_mux(NULL);
+	/* precondition */
+	__CPROVER_assume(CHAN_WF(G_sel) && MUX_WF(G_mux) && DIAG_PRE);
+	bind_pre();
+	take_snap(&s);
+	unsigned err0 = g_err;
+
+	int r = cb_select(G_sel, G_mux);
+
+	VASSERT(r == 0 || r == -1, "cb_select returns 0 or -1");
+	VASSERT((r != 0) == (KEY_BAD(G_mux) || (g_cb_calls == 1 && g_cb_ret != 0)),
+		"refused exactly when the key selects nothing legal or the output channel's dirty callback failed");
+	VASSERT(r == 0 || g_err > err0, "a refusal is diagnosed");
+	VASSERT(G_mux->selected == NEWSEL(G_mux), "the selection follows the select channel; a bad key leaves nothing selected");
+	VASSERT(MUX_SYNC_INPUTS(G_mux), "exactly the selected input has its callback enabled, is flagged, and is on its channel's callback list");
+	VASSERT(MUX_WF(G_mux), "MUX_WF preserved");
+	VASSERT(OTHERS_LINKED(0, w_shape0) && OTHERS_LINKED(1, w_shape1) && OTHERS_LINKED(2, w_shape2), "callbacks of other muxes stay on the lists, in order");
+	VASSERT(NEWSEL(G_mux) < 0 || (G_bc[NEWSEL(G_mux)]->cb[BAY_CB_DIRTY]->prev == G_cb[NEWSEL(G_mux)] && G_cb[NEWSEL(G_mux)]->next == NULL),
+		"the selected input's callback is the last of its channel");
+	VASSERT(KEY_BAD(G_mux) || (G_out->is_dirty != 0 &&
+		spec_single_t(G_out) == (NEWSEL(G_mux) == 0 ? g_it[0] : NEWSEL(G_mux) == 1 ? g_it[1] : NEWSEL(G_mux) == 2 ? g_it[2] : g_deft) &&
+		spec_single_i(G_out) == (NEWSEL(G_mux) == 0 ? g_ii[0] : NEWSEL(G_mux) == 1 ? g_ii[1] : NEWSEL(G_mux) == 2 ? g_ii[2] : g_defi)),
+		"the output shows the selected input's value, or the default when nothing is selected");
+	VASSERT(!KEY_BAD(G_mux) || (spec_single_t(G_out) == g_ot && spec_single_i(G_out) == g_oi && G_out->is_dirty == g_out_dirty),
+		"a bad key does not touch the output");
+	VASSERT(g_cb_calls == ((!KEY_BAD(G_mux) && g_out_dirty == 0 && G_out->dirty_cb != NULL) ? 1u : 0u),
+		"the output's dirty callback runs exactly once iff the output becomes dirty");
+	check_frame(&s, s.mux.selected, NEWSEL(G_mux));
+
+	if (r == 0 && w_oldsel == 0 && w_ki == 1 && w_kt == VALUE_INT64 && w_en0) REACH("switch from input 0 to input 1");
+	if (r == 0 && w_oldsel == 1 && w_ki == 1 && w_kt == VALUE_INT64 && w_en1) REACH("same input selected again");
+	if (r == 0 && w_oldsel == 2 && w_kt == VALUE_NULL && w_en2) REACH("switch from input 2 to none");
+	if (r == 0 && w_oldsel == -1 && w_ki == 2 && w_kt == VALUE_INT64) REACH("switch from none to input 2");
+	if (r == 0 && w_oldsel == 0 && !w_en0 && w_ki == 0 && w_kt == VALUE_INT64) REACH("first selection after mux_init (selected == 0, nothing enabled)");
+	if (r == 0 && w_oldsel == 1 && w_ki == 0 && w_kt == VALUE_INT64 && w_shape0 == 3 && w_shape1 == 3) REACH("switch with other callbacks around both inputs");
+	if (r != 0 && w_kt == VALUE_INT64 && w_ki == w_nin) REACH("refused: index out of range");
+	if (r != 0 && w_kt == VALUE_INT64 && w_ki < 0) REACH("refused: negative index");
+	if (r != 0 && w_kt == VALUE_DOUBLE) REACH("refused: key is not null/int64");
+	if (r != 0 && w_kt == VALUE_NULL) REACH("refused: output channel failed");
+	if (r == 0 && w_nin == 0) REACH("mux without inputs, null key");
+}
